@@ -1,8 +1,11 @@
 package harness
 
 import (
+	"errors"
+
 	"bytes"
 	"fmt"
+	"github.com/quickfixgo/quickfix/verifsim/simos"
 	"time"
 
 	"github.com/quickfixgo/quickfix"
@@ -158,7 +161,23 @@ func runC03(env *Env, tier string) {
 				v = 1 + ch.Choose("groupkind", maxVariant)
 			}
 			id := fmt.Sprintf("e%d", nsend)
-			if err := quickfix.SendToTarget(c03Body(c, id, v), s.E.SID); err != nil {
+			// file store: in a share of the sends the disk fails somewhere inside the save (a write or a
+			// sync returns an error, a write possibly after some of its bytes)
+			armed := false
+			if c.Store == "file" && !c.PersistOff && ch.Chance("diskfault", 1, 5) {
+				flt := simos.Fault{Err: errors.New("injected: input/output error")}
+				if ch.Chance("shortwrite", 1, 2) {
+					flt.Short = 1 + ch.Choose("shortbytes", 12)
+				}
+				simos.Current().ArmWriteFault(1+ch.Choose("diskfaultop", 6), flt)
+				armed = true
+			}
+			err := quickfix.SendToTarget(c03Body(c, id, v), s.E.SID)
+			if armed {
+				if !simos.Current().DisarmWriteFault() {
+					env.Stat("fault_disk_write_error_in_save")
+				}
+			} else if err != nil {
 				env.Fatalf("send: %v", err)
 			}
 			env.Settle()
